@@ -97,7 +97,64 @@ def _mk_np(name):
 
     wrapper.__name__ = name
     wrapper.__verif_seam__ = True
-    return wrapper
+    return _SeamFn(name, wrapper)
+
+
+class _SeamFn:
+    """numpy.random.<name> under simulation. The real object is a bound method of numpy's process-global RandomState: when
+    a reference to it is STORED in an object that is later copied or pickled (to a pool worker), the generator goes along
+    BY VALUE, frozen in the state it had at that moment. A plain function would be pickled by reference and hide that."""
+
+    __verif_seam__ = True
+
+    def __init__(self, name, call):
+        self.__name__ = name
+        self.__qualname__ = name
+        self._call = call
+
+    def __call__(self, *a, **k):
+        return self._call(*a, **k)
+
+    def __reduce__(self):
+        wd = ACTIVE
+        if wd is None:
+            return (_lookup_np, (self.__name__,))
+        wd.probes["rng.global_generator_method_copied"] += 1
+        return (_FrozenFn, (self.__name__, wd.current.nprs.get_state()))
+
+    def __deepcopy__(self, memo):
+        fn, args = self.__reduce__()
+        return fn(*args)
+
+    def __copy__(self):
+        return self
+
+
+def _lookup_np(name):
+    return getattr(_np.random, name)
+
+
+class _FrozenFn:
+    """a copy of numpy.random.<name> taken by value: draws from its own private generator (recorded in the draw ledger)"""
+
+    def __init__(self, name, state):
+        self.__name__ = name
+        self._rs = _np.random.RandomState()
+        self._rs.set_state(state)
+
+    def __call__(self, *a, **k):
+        wd = ACTIVE
+        before = _w.fp_np(self._rs)
+        val = getattr(self._rs, self.__name__)(*a, **k)
+        after = _w.fp_np(self._rs)
+        if wd is not None:
+            wd.probes["rng.copied_generator_used"] += 1
+            rec = (_np.array(val, copy=True) if isinstance(val, _np.ndarray) else val) if wd.record_values else None
+            wd.draws.append(("np", self.__name__, wd.current.name, -1, _consumer(0), _size_of(val), before, after, rec))
+        return val
+
+    def __reduce__(self):
+        return (_FrozenFn, (self.__name__, self._rs.get_state()))
 
 
 def _mk_py(name):
